@@ -1717,22 +1717,34 @@ func (r *Regex) MatchReader(reader io.RuneReader) bool {
 	return r.MatchString(string(runes))
 }
 
+// readAllRunes drains the reader into a byte slice in which every rune takes
+// as many bytes as ReadRune reported for it: an ill-formed byte (RuneError of
+// size 1) becomes one invalid byte, not the three bytes of U+FFFD, so that
+// match offsets are offsets into the input stream as with regexp. (MatchReader
+// reports no offsets and keeps reading into a string.)
+func readAllRunes(reader io.RuneReader) []byte {
+	var buf []byte
+	for {
+		rn, size, err := reader.ReadRune()
+		if err != nil {
+			break
+		}
+		if rn == utf8.RuneError && size == 1 {
+			buf = append(buf, 0xFF)
+			continue
+		}
+		buf = utf8.AppendRune(buf, rn)
+	}
+	return buf
+}
+
 // FindReaderIndex returns a two-element slice of integers defining the
 // location of the leftmost match of the regular expression in text read from
 // the RuneReader. The match text was found in the input stream at
 // byte offset loc[0] through loc[1]-1.
 // A return value of nil indicates no match.
 func (r *Regex) FindReaderIndex(reader io.RuneReader) []int {
-	// Read all runes into a string and find
-	var runes []rune
-	for {
-		rn, _, err := reader.ReadRune()
-		if err != nil {
-			break
-		}
-		runes = append(runes, rn)
-	}
-	return r.FindStringIndex(string(runes))
+	return r.FindIndex(readAllRunes(reader))
 }
 
 // FindReaderSubmatchIndex returns a slice holding the index pairs
@@ -1742,16 +1754,7 @@ func (r *Regex) FindReaderIndex(reader io.RuneReader) []int {
 // package comment.
 // A return value of nil indicates no match.
 func (r *Regex) FindReaderSubmatchIndex(reader io.RuneReader) []int {
-	// Read all runes into a string and find
-	var runes []rune
-	for {
-		rn, _, err := reader.ReadRune()
-		if err != nil {
-			break
-		}
-		runes = append(runes, rn)
-	}
-	return r.FindStringSubmatchIndex(string(runes))
+	return r.FindSubmatchIndex(readAllRunes(reader))
 }
 
 // MatchReader reports whether the text returned by the RuneReader
